@@ -117,4 +117,3 @@ func readRaw(x *netctl.Exec, c *kfake.Cluster, topic string, partition int32) []
 	x.Violate("harness:rawfetch", "raw fetch %s/%d did not reach the high watermark", topic, partition)
 	return out
 }
-
